@@ -28,7 +28,7 @@ predicates; MavenCoord/FoundDependency/DependencyScope print/parse on generated 
 A resolve case is non-trivial when the result has at least 2 dependencies; distinct by canonical text of the input.".into();
 
 	resolve::scope_table_cases(&mut r)?;
-	let n_resolve = if ctx.thorough { 6000 } else { 900 };
+	let n_resolve = if ctx.thorough { 8000 } else { 900 };
 	resolve::generated_cases(&mut r, &mut rng.fork(1), n_resolve)?;
 	resolve::documented_examples(&mut r)?;
 	let n_tree = if ctx.thorough { 3000 } else { 500 };
@@ -36,9 +36,10 @@ A resolve case is non-trivial when the result has at least 2 dependencies; disti
 	let n_coord = if ctx.thorough { 4000 } else { 700 };
 	coords::cases(&mut r, &mut rng.fork(3), n_coord);
 	// coqc spends far more time reading a resolve case than evaluating it: deal the cases round-robin
-	// into 16 shards of equal size so that the shards take equally long
+	// into shards of equal size (at least 16, at most ~400 cases each: a coqc process needs about 0.5 MB of
+	// memory per case) so that the shards take equally long
 	let n = r.cases.len();
-	let shards = 16usize;
+	let shards = 16usize.max((n + 399) / 400);
 	let mut dealt = Vec::with_capacity(n);
 	for s in 0..shards { let mut i = s; while i < n { dealt.push(std::mem::take(&mut r.cases[i])); i += shards; } }
 	r.cases = dealt;
